@@ -55,7 +55,7 @@ static void dtor_check(L1 *o, char tag)
     jput(o, tag);
 }
 static void c1(L1 *o) { o->uid = next_uid < MAXOBJ ? next_uid++ : -1; o->magic = MAGIC | (unsigned)o->uid; jput(o, 'a'); }
-static const char *jof(L1 *o) { return (o && o->uid >= 0 && o->uid < MAXOBJ && o->magic == (MAGIC | (unsigned)o->uid)) ? jof(o) : "(first constructor never ran)"; }
+static const char *jof(L1 *o) { return (o && o->uid >= 0 && o->uid < MAXOBJ && o->magic == (MAGIC | (unsigned)o->uid)) ? journal[o->uid] : "(first constructor never ran)"; }
 static void d1(L1 *o)
 {
     dtor_check(o, 'A');
